@@ -97,13 +97,17 @@ Definition plan_map {A} (f : action_sk -> list A) (p : plan_sk) : list A :=
 
 (* ---- reading objects back out of a Go value ----
    [collect n v]: the values of the exported, not secure-tagged fields named n, found by walking v through
-   exported untagged fields, pointers, slices, map values and interface values (not below a found field). *)
+   exported untagged fields, pointers, slices, map values and interface values - not below a found field and
+   not into the request / response payloads (fields Req and Resp), whose own field names are arbitrary. *)
+Definition is_payload (name : N) : bool := N.eqb name nReq || N.eqb name nResp.
+
 Fixpoint collect (n : N) (v : gv) : list gv :=
   match v with
   | VStr _ | VNum _ | VBool _ | VTime _ | VArray _ => []
   | VStruct fs =>
       flat_map (fun p => if negb (f_exported (fst p)) || has_secure (f_tag (fst p)) then []
                          else if N.eqb (f_name (fst p)) n then [snd p]
+                         else if is_payload (f_name (fst p)) then []
                          else collect n (snd p)) fs
   | VPtr o => match o with None => [] | Some x => collect n x end
   | VSlice o => match o with None => [] | Some l => flat_map (collect n) l end
@@ -181,8 +185,24 @@ Definition render (p : plan_sk) : res (list gv) :=
   | OFuel => Fuel
   end.
 
-(* well-formedness of the `any` fields of a skeleton *)
-Definition iface_wf (v : gv) : bool := match v with VIface _ => wf v | _ => false end.
+(* ---- what the clone entry points are supposed to return: the same skeleton with every payload scrubbed ---- *)
+Definition scrub_attempt (k : attempt_sk) : attempt_sk := {| k_resp := scrub false (k_resp k); k_err := k_err k |}.
+Definition scrub_action (a : action_sk) : action_sk :=
+  {| a_req := scrub false (a_req a);
+     a_attempts := match a_attempts a with None => None | Some l => Some (map scrub_attempt l) end |}.
+Definition scrub_checks_opt (o : option checks_sk) : option checks_sk :=
+  match o with None => None | Some c => Some (map scrub_action c) end.
+Definition scrub_block (b : block_sk) : block_sk :=
+  {| b_bypass := scrub_checks_opt (b_bypass b); b_pre := scrub_checks_opt (b_pre b); b_cont := scrub_checks_opt (b_cont b);
+     b_post := scrub_checks_opt (b_post b); b_deferred := scrub_checks_opt (b_deferred b);
+     b_seqs := map (map scrub_action) (b_seqs b) |}.
+Definition scrub_plan (p : plan_sk) : plan_sk :=
+  {| p_bypass := scrub_checks_opt (p_bypass p); p_pre := scrub_checks_opt (p_pre p); p_cont := scrub_checks_opt (p_cont p);
+     p_post := scrub_checks_opt (p_post p); p_deferred := scrub_checks_opt (p_deferred p);
+     p_blocks := map scrub_block (p_blocks p) |}.
+
+(* well-formedness of the payloads of a skeleton (the Go invariant GoVal.wf) *)
+Definition iface_wf (v : gv) : bool := wf v.
 Definition action_wf (a : action_sk) : bool :=
   iface_wf (a_req a) && match a_attempts a with None => true | Some l => forallb (fun k => iface_wf (k_resp k)) l end.
 Definition checks_opt_wf (o : option checks_sk) : bool :=
